@@ -110,7 +110,7 @@ def pubKeyOfJson (j : Json) : P PubKey := do
 def schemeToJson : Scheme → Json
   | .ecdsa h => Json.mkObj [("kind", "ecdsa"), ("hash", hashAlgName h)]
   | .pkcs1v15 h => Json.mkObj [("kind", "pkcs1v15"), ("hash", hashAlgName h)]
-  | .pss h => Json.mkObj [("kind", "pss"), ("hash", hashAlgName h)]
+  | .pss m h salt => Json.mkObj [("kind", "pss"), ("mgf", hashAlgName m), ("hash", hashAlgName h), ("salt", salt)]
   | .ed25519 => Json.mkObj [("kind", "ed25519")]
 
 def optOfJson {α} (f : Json → P α) (j : Json) : P (Option α) :=
@@ -214,6 +214,7 @@ def errToJson (e : Err) : Json :=
   match e.kind with
   | .lib c => Json.mkObj [("k", "reject"), ("lib", c.name), ("site", e.site)]
   | .nonlib c => Json.mkObj [("k", "reject"), ("nonlib", c), ("site", e.site)]
+  | .oom why => Json.mkObj [("k", "oom"), ("why", why)]
 
 def outcomeToJson {α} (f : α → Json) : Except Err α → Json
   | .ok a => Json.mkObj [("k", "accept"), ("record", f a)]
